@@ -520,11 +520,10 @@ fn local_callbacks_in<'tcx>(tcx: TyCtxt<'tcx>, t: Ty<'tcx>, depth: usize, out: &
     }
     match t.kind() {
         ty::Closure(d, args) => {
+            // the closure itself may be invoked by the callee; closures it captures are reached through
+            // its own body (Fn::call on the upvar resolves there), not by the foreign callee directly
             if d.is_local() {
                 out.push(Instance::new_raw(*d, args));
-            }
-            for x in args.as_closure().upvar_tys().iter() {
-                local_callbacks_in(tcx, x, depth + 1, out);
             }
         }
         ty::FnDef(d, args) => {
